@@ -1,7 +1,8 @@
 (** Executable correspondence predicates for C04, evaluated on harness-generated case files.
     A case holds the source description of the input and the implementation's observed outputs;
     [check_*] returns 0 agree + spec, 1 outside the modelled domain, 2 implementation differs from the
-    model (spec holds on its output), 3 the spec is false on the implementation's output. *)
+    model (spec holds on its output), 3 the spec is false on the implementation's output, 5 the implementation
+    shows the pre-repair behaviour on a non-finite float bound (a C09 sighting, not a C04 verdict). *)
 From Coq Require Import List NArith ZArith Bool.
 Import ListNotations.
 From LI Require Import Base.StrOps Parser.Ranges.
@@ -111,6 +112,10 @@ Definition check_new (c : ncase) : N :=
                  | NAst atoms => spec_C04_parse t atoms (n_counts c) (n_impl c) (n_native c) (n_domatch c)
                  | NRaw _ => match n_impl c with Panic _ => false | _ => true end
                  end in
+  (* the implementation behaves exactly like the model before the non-finite repair, where that differs
+     from the repaired model: a NaN / infinite float bound was accepted (C09, counted, not a C04 verdict) *)
+  let m_old := range_new_nonfinite_old t (n_tbl c) (nsrc_string (n_src c)) in
+  if negb (res_eqb true range_eqb m (n_impl c)) && res_eqb true range_eqb m_old (n_impl c) then 5%N else
   let agree := res_eqb true range_eqb m (n_impl c)
                && match m with
                   | Ok r => list_eqb Bool.eqb (n_native c) (map (pat_match r) (n_counts c))
@@ -221,9 +226,12 @@ Definition sdecl_wf (tbl : ftable) (d : sdecl) : bool :=
 Definition check_decl (c : dcase) : N :=
   let d := dc_decl c in
   let m := parse_decl (dc_tbl c) (sdecl_json d) in
-  (* non-finite float bounds are accepted by the parser and make code generation panic: C09's domain *)
-  let nonfinite := match m with Ok (t, bs) => negb (is_ok (codegen t bs)) | _ => false end in
-  if is_unmodelled m || negb (sdecl_wf (dc_tbl c) d) || nonfinite then 1%N else
+  if is_unmodelled m || negb (sdecl_wf (dc_tbl c) d) then 1%N else
+  (* pre-repair behaviour on non-finite float bounds (accepted, code generation would panic): C09, counted *)
+  let m_old := parse_decl_nonfinite_old (dc_tbl c) (sdecl_json d) in
+  let obs := fun (m : res (rtype * branches)) => rmap (fun p => (fst p, ibranches_of (snd p))) m in
+  if negb (res_eqb false iparse_eqb (obs m) (dc_impl_parse c)) && res_eqb false iparse_eqb (obs m_old) (dc_impl_parse c)
+  then 5%N else
   let dyn := match dc_impl_dyn c with Some l => l | None => map (fun _ => None) (dc_counts c) end in
   let spec_ok := spec_C04 d (dc_counts c) (dc_impl_parse c) (dc_impl_static c) (dc_impl_native c) dyn in
   let agree_parse := res_eqb false iparse_eqb (rmap (fun p => (fst p, ibranches_of (snd p))) m) (dc_impl_parse c) in
